@@ -135,8 +135,9 @@ def _get_semaphore_key(
     elif semaphore_scope == 'global':
         return base_name
     elif semaphore_scope == 'class' and args and hasattr(args[0], '__class__'):
-        class_name = args[0].__class__.__name__
-        return f'{class_name}.{base_name}'
+        # module + qualified name: two unrelated classes that merely share a __name__ must not share (and block) one semaphore
+        cls = args[0].__class__
+        return f'{cls.__module__}.{cls.__qualname__}.{base_name}'
     elif semaphore_scope == 'self' and args:
         instance_id = id(args[0])
         return f'{instance_id}.{base_name}'
